@@ -7,6 +7,7 @@ is the pair (centre, Counter(peripherals)).
 """
 import collections
 import itertools
+import warnings
 
 from hypothesis import strategies as st
 
@@ -151,6 +152,18 @@ def _pair(ctx, c1, runs1, c2, runs2, kind):
         bad('parse-vs-constructor', 'parse(%r)=%r vs %r' % (t1, A2, A))
     if not (B2 == B and hash(B2) == hash(B)):
         bad('parse-vs-constructor', 'parse(%r)=%r vs %r' % (t2, B, B2))
+    # the peripherals may be given as any iterable of names (tuple, generator, iterator, map), and the caller's list is left alone
+    src = list(p1)
+    for form, mk in (('tuple', tuple), ('generator', lambda p: (x for x in p)), ('iterator', iter), ('map', lambda p: map(str, p)), ('same-list', lambda p: p)):
+        try:
+            G = Group(None, c1, mk(src))
+        except Exception as e:
+            bad('constructor-iterable:%s:raises-%s' % (form, type(e).__name__), 'Group(%r, <%s of %r>) raised %s' % (c1, form, p1, e))
+            continue
+        if not (G == A and A == G and hash(G) == hash(A) and G.name == A.name):
+            bad('constructor-iterable:%s' % form, 'Group(%r, <%s of %r>) = %r, from the list %r' % (c1, form, p1, G, A))
+    if src != list(p1):
+        bad('constructor-changes-callers-list', 'the list %r given to Group() is now %r' % (p1, src))
     for X, Y in ((A, B), (B, A), (A2, B2)):
         if (X == Y) != model_eq:
             bad('eq', '(a==b) is %r, model says %r; names %r %r' % (X == Y, model_eq, X.name, Y.name))
@@ -182,6 +195,28 @@ def _pair(ctx, c1, runs1, c2, runs2, kind):
             bad('library-lookup', 'lib[%r] -> %r, in=%r, model_equal=%r' % (key, got, key in lib, model_eq))
     if lib[A] != {'payload': t1} or lib[A.name] != {'payload': t1} or len(lib) != 1 or list(lib) != [A]:
         bad('library-lookup', 'library does not find its own key %r' % A.name)
+    # a library FILE that lists both names: one entry twice (refused) exactly when the two are the same group, two entries
+    # otherwise (sampled: every 40th pair, files are slow)
+    if t1 != t2 and sum(map(ord, t1 + '|' + t2)) % 40 == 0 and "'" not in t1 + t2:
+        from vlib import libgen as LG
+        text = ("groups:\n    '%s':\n        'thermochem':\n            T_ref: 298.15 K\n            ND_H_ref: 1.5\n"
+                "    '%s':\n        'thermochem':\n            T_ref: 298.15 K\n            ND_S_ref: 2.5\n" % (t1, t2))
+        with LG.TempLib() as tl:
+            tl.write('library.yaml', text)
+            try:
+                import pgradd.ThermoChem  # noqa
+                with warnings.catch_warnings():
+                    warnings.simplefilter('ignore')
+                    L2 = GroupLibrary.Load(tl.path())
+                n = len(L2)
+            except Exception as e:
+                n = 'refused:%s' % type(e).__name__
+        ctx.count()
+        ctx.event('library-file:%s' % ('same-group-twice' if model_eq else 'two-groups'))
+        if model_eq and not isinstance(n, str):
+            bad('library-file-defines-one-group-twice', 'a file listing %r and %r (the same group) loaded with %d entries' % (t1, t2, n))
+        if not model_eq and n != 2:
+            bad('library-file-two-groups', 'a file listing %r and %r (different groups) gave %r' % (t1, t2, n))
 
 
 # -- random larger cases ----------------------------------------------------
